@@ -44,7 +44,7 @@ func c12accept(p *Prog, r *Report) {
 		r.Anchor(rule, "node.(*core).fastForward")
 		return
 	}
-	frame := ssa.Value(fn.Params[2])
+	frame := paramByType(fn, 2, "Frame")
 	checkM := named(HG + ".Hashgraph.CheckBlock")
 	qCheck := p.lift(func(l Lit) bool {
 		c, ok := errNilLit(l, checkM)
@@ -139,7 +139,7 @@ func c12check(p *Prog, r *Report) {
 		r.Anchor(rule, "hashgraph.(*Hashgraph).CheckBlock")
 		return
 	}
-	block, peerSet := ssa.Value(fn.Params[1]), ssa.Value(fn.Params[2])
+	block, peerSet := paramByType(fn, 1, "Block"), paramByType(fn, 2, "PeerSet")
 	qHash := p.lift(func(l Lit) bool {
 		x, y, ok := eqLit(l)
 		if !ok {
